@@ -42,6 +42,7 @@
   #include <xercesc/util/Janitor.hpp>
 #endif
 #endif
+#include <xercesc/util/VerifHooks.hpp>
 
 namespace XERCES_CPP_NAMESPACE {
 
@@ -295,6 +296,7 @@ RangeToken* RangeToken::getCaseInsensitiveToken(TokenFactory* const tokFactory) 
         lwrToken->createMap();
 
         fCaseIToken = lwrToken;
+        VERIF_EVS("Acc", "ci_tok", "obj,c,rw,val", (long long)this, 0, 1, (long long)lwrToken);
         // TODO(dbertoni) This is a temporary hack until we can change the ABI.
         // See Jira issue XERCESC-1866 for more details.
         // Overload the fCaseIToken data member to be the case-insensitive token
@@ -838,6 +840,7 @@ void RangeToken::doCreateMap() {
 
     int asize = MAPSIZE/32;
     fMap = (int*) fMemoryManager->allocate(asize * sizeof(int));//new int[asize];
+    VERIF_EVS("Acc", "map_alloc", "obj,c,rw,val", (long long)this, 0, 1, 0);
     fNonMapIndex = fElemCount;
 
     for (int i = 0; i < asize; i++) {
@@ -867,6 +870,7 @@ void RangeToken::doCreateMap() {
             break;
         }
     }
+    VERIF_EVS("Acc", "map_done", "obj,c,rw,val", (long long)this, 0, 1, 1);
 }
 
 }
